@@ -23,14 +23,15 @@ package disruption
 //@   site (Validator).Validate requires [onlyEmptyNodes] forall k int {$2.Candidates[k]} :: (0 <= k && k < len($2.Candidates)) ==> isEmptySpec($2.Candidates[k])
 //@   site (Validator).Validate requires [deleteOnly] len($2.Replacements) == 0
 //@   site (Validator).Validate requires [budgetsAsHandedIn] forall p string {old(disruptionBudgetMapping[p])} :: atcall(@(*consolidation).sortCandidates, disruptionBudgetMapping[p]) == old(disruptionBudgetMapping[p])
-//@   site (Validator).Validate requires [withinBudget] forall k int {$2.Candidates[k]} :: (0 <= k && k < len($2.Candidates)) ==> (exists j int {candidates[j]} :: 0 <= j && j < len(candidates) && $2.Candidates[k] == candidates[j] && atcall(@(*consolidation).sortCandidates, rankOK(candidates, j, disruptionBudgetMapping[poolName(candidates[j])], true)))
+//@   site (Validator).Validate requires [withinBudget] forall k int {$2.Candidates[k]} :: (0 <= k && k < len($2.Candidates)) ==> (exists j int {candidates[j]} :: 0 <= j && j < len(candidates) && atcall(@(*consolidation).sortCandidates, candidates[j]) == $2.Candidates[k] && atcall(@(*consolidation).sortCandidates, rankOK(candidates, j, disruptionBudgetMapping[poolName(candidates[j])], true)))
 //@   site (Validator).Validate requires [selectableWithinBudget] forall p string {old(disruptionBudgetMapping[p])} :: atcall(@(*consolidation).sortCandidates, cntTaken(candidates, len(candidates), p, disruptionBudgetMapping[p], true)) <= old(disruptionBudgetMapping[p])
 //@   loop 1 invariant [own] fresh(empty)
+//@   loop 1 invariant [room] len(empty) <= $i + 1 && cap(empty) >= len(candidates) && loc(empty) != loc(candidates)
 //@   loop 1 invariant [onlyEmptyNodes] forall k int {empty[k]} :: (0 <= k && k < len(empty)) ==> isEmptySpec(empty[k])
 //@   loop 1 invariant [entryNonNegative] forall p string {old(disruptionBudgetMapping[p])} :: old(disruptionBudgetMapping[p]) >= 0 && atcall(@(*consolidation).sortCandidates, disruptionBudgetMapping[p]) == old(disruptionBudgetMapping[p])
 //@   loop 1 invariant [cands] forall j int {candidates[j]} :: (0 <= j && j < len(candidates)) ==> candidates[j] == atcall(@(*consolidation).sortCandidates, candidates[j])
 //@   loop 1 invariant [decrementPerTaken] forall p string {disruptionBudgetMapping[p]} :: disruptionBudgetMapping[p] == max(0, old(disruptionBudgetMapping[p]) - atcall(@(*consolidation).sortCandidates, cntP(candidates, $i + 1, p, true)))
-//@   loop 1 invariant [selected] forall k int {empty[k]} :: (0 <= k && k < len(empty)) ==> (exists j int {candidates[j]} :: 0 <= j && j <= $i && empty[k] == candidates[j] && atcall(@(*consolidation).sortCandidates, rankOK(candidates, j, disruptionBudgetMapping[poolName(candidates[j])], true)))
+//@   loop 1 invariant [selected] forall k int {empty[k]} :: (0 <= k && k < len(empty)) ==> (exists j int {candidates[j]} :: 0 <= j && j <= $i && atcall(@(*consolidation).sortCandidates, candidates[j]) == empty[k] && atcall(@(*consolidation).sortCandidates, rankOK(candidates, j, disruptionBudgetMapping[poolName(candidates[j])], true)))
 //@   loop 1 invariant [selectableWithinBudget] forall p string {old(disruptionBudgetMapping[p])} :: atcall(@(*consolidation).sortCandidates, cntTaken(candidates, $i + 1, p, disruptionBudgetMapping[p], true)) == min(old(disruptionBudgetMapping[p]), atcall(@(*consolidation).sortCandidates, cntP(candidates, $i + 1, p, true)))
 
 // Drift: at most one command, with exactly one candidate; a candidate is only simulated — and a command only built for the
@@ -61,14 +62,15 @@ package disruption
 //@   modifies *
 //@   site (*MultiNodeConsolidation).firstNConsolidationOption requires [searchesTheSelection] $2 == disruptableCandidates
 //@   site (*MultiNodeConsolidation).firstNConsolidationOption requires [budgetsAsHandedIn] forall p string {old(disruptionBudgetMapping[p])} :: atcall(@(*consolidation).sortCandidates, disruptionBudgetMapping[p]) == old(disruptionBudgetMapping[p])
-//@   site (*MultiNodeConsolidation).firstNConsolidationOption requires [withinBudget] forall k int {$2[k]} :: (0 <= k && k < len($2)) ==> (exists j int {candidates[j]} :: 0 <= j && j < len(candidates) && $2[k] == candidates[j] && atcall(@(*consolidation).sortCandidates, rankOK(candidates, j, disruptionBudgetMapping[poolName(candidates[j])], false)))
+//@   site (*MultiNodeConsolidation).firstNConsolidationOption requires [withinBudget] forall k int {$2[k]} :: (0 <= k && k < len($2)) ==> (exists j int {candidates[j]} :: 0 <= j && j < len(candidates) && atcall(@(*consolidation).sortCandidates, candidates[j]) == $2[k] && atcall(@(*consolidation).sortCandidates, rankOK(candidates, j, disruptionBudgetMapping[poolName(candidates[j])], false)))
 //@   site (*MultiNodeConsolidation).firstNConsolidationOption requires [selectableWithinBudget] forall p string {old(disruptionBudgetMapping[p])} :: atcall(@(*consolidation).sortCandidates, cntTaken(candidates, len(candidates), p, disruptionBudgetMapping[p], false)) <= old(disruptionBudgetMapping[p])
 //@   site (Validator).Validate requires [prefixOfTheSelection] prefixOf($2.Candidates, disruptableCandidates)
 //@   loop 1 invariant [own] fresh(disruptableCandidates)
+//@   loop 1 invariant [room] len(disruptableCandidates) <= $i + 1 && cap(disruptableCandidates) >= len(candidates) && loc(disruptableCandidates) != loc(candidates)
 //@   loop 1 invariant [entryNonNegative] forall p string {old(disruptionBudgetMapping[p])} :: old(disruptionBudgetMapping[p]) >= 0 && atcall(@(*consolidation).sortCandidates, disruptionBudgetMapping[p]) == old(disruptionBudgetMapping[p])
 //@   loop 1 invariant [cands] forall j int {candidates[j]} :: (0 <= j && j < len(candidates)) ==> candidates[j] == atcall(@(*consolidation).sortCandidates, candidates[j])
 //@   loop 1 invariant [decrementPerTaken] forall p string {disruptionBudgetMapping[p]} :: disruptionBudgetMapping[p] == max(0, old(disruptionBudgetMapping[p]) - atcall(@(*consolidation).sortCandidates, cntP(candidates, $i + 1, p, false)))
-//@   loop 1 invariant [selected] forall k int {disruptableCandidates[k]} :: (0 <= k && k < len(disruptableCandidates)) ==> (exists j int {candidates[j]} :: 0 <= j && j <= $i && disruptableCandidates[k] == candidates[j] && atcall(@(*consolidation).sortCandidates, rankOK(candidates, j, disruptionBudgetMapping[poolName(candidates[j])], false)))
+//@   loop 1 invariant [selected] forall k int {disruptableCandidates[k]} :: (0 <= k && k < len(disruptableCandidates)) ==> (exists j int {candidates[j]} :: 0 <= j && j <= $i && atcall(@(*consolidation).sortCandidates, candidates[j]) == disruptableCandidates[k] && atcall(@(*consolidation).sortCandidates, rankOK(candidates, j, disruptionBudgetMapping[poolName(candidates[j])], false)))
 //@   loop 1 invariant [selectableWithinBudget] forall p string {old(disruptionBudgetMapping[p])} :: atcall(@(*consolidation).sortCandidates, cntTaken(candidates, $i + 1, p, disruptionBudgetMapping[p], false)) == min(old(disruptionBudgetMapping[p]), atcall(@(*consolidation).sortCandidates, cntP(candidates, $i + 1, p, false)))
 
 // The binary search only ever keeps the command computed for candidates[0 : mid+1] (computeConsolidation hands back exactly
